@@ -176,7 +176,15 @@ fn get_new_path<L: Locale>(
         if new_locale != L::default() {
             path_builder.push(new_locale.as_str());
         }
-        if let Some(path_rest) = path_name.strip_prefix(base_path) {
+        // the base path is accepted with or without leading / trailing slashes (`foo`, `/foo`, `foo/`, `/foo/`),
+        // and must be made of whole segments.
+        let base = base_path.trim_matches('/');
+        let path_rest = path_name
+            .trim_start_matches('/')
+            .strip_prefix(base)
+            .filter(|rest| base.is_empty() || rest.is_empty() || rest.starts_with('/'));
+        if let Some(path_rest) = path_rest {
+            let path_rest = path_rest.trim_start_matches('/');
             let path_rest = match locale {
                 None => path_rest,
                 Some(l) => match path_rest.strip_prefix(l.as_str()) {
